@@ -373,6 +373,20 @@ func (self *visitorUserNode) OnFloat64(v float64, n json.Number) error {
 		if err = self.p.WriteDouble(convertData); err != nil {
 			return err
 		}
+	// integers above MaxInt64 are delivered by the JSON parser as float64: take the exact literal
+	case proto.Uint64Kind, proto.Fixed64Kind:
+		u, perr := strconv.ParseUint(string(n), 10, 64)
+		if perr != nil {
+			return newError(meta.ErrDismatchType, "param isn't an unsigned 64-bit integer", perr)
+		}
+		if fieldDesc.Kind() == proto.Fixed64Kind {
+			err = self.p.WriteFixed64(u)
+		} else {
+			err = self.p.WriteUint64(u)
+		}
+		if err != nil {
+			return err
+		}
 	// cast double2int32, double2int64
 	case proto.Int32Kind:
 		convertData := int32(v)
